@@ -988,6 +988,9 @@ func (g *Gen) GenTyped(n *Node) Val {
 		}
 		return out
 	case n.Kind == KPtr:
+		if n.Elem.Kind == KPtr && g.Cfg.Mode == "validate" && !g.Cfg.FullyPop && g.p(0.3, "ptrnil") {
+			return Val{T: "ptr", L: []Val{Nil()}} // the outer pointer is set, the inner one is nil
+		}
 		return g.GenTyped(n.Elem)
 	case n.Kind == KPre:
 		if n.PreFn == "split" {
